@@ -71,6 +71,22 @@ theorem strLt_negTrans : ∀ a b c : Bytes, strLt a b = false → strLt b c = fa
             simp only [show ¬ a.toNat < c.toNat by omega, show ¬ c.toNat < a.toNat by omega, ↓reduceIte]
             exact strLt_negTrans as bs cs h1 h2
 
+/-- `strcmp` is a total order on strings: neither smaller means equal -/
+theorem strLt_antisymm : ∀ a b : Bytes, strLt a b = false → strLt b a = false → a = b
+  | [], [], _, _ => rfl
+  | [], _ :: _, h, _ => by simp [strLt] at h
+  | _ :: _, [], _, h => by simp [strLt] at h
+  | a :: as, b :: bs, h1, h2 => by
+    simp only [strLt] at h1 h2
+    by_cases hab : a < b
+    · simp [hab] at h1
+    · by_cases hba : b < a
+      · simp [hba] at h2
+      · have : a = b := u8_eq_of_not_lt hab hba
+        subst this
+        simp only [u8_lt_irrefl, ↓reduceIte] at h1 h2
+        rw [strLt_antisymm as bs h1 h2]
+
 theorem pairLt_strictWeak : StrictWeak pairLt :=
   ⟨fun a => strLt_irrefl a.1, fun a b c => strLt_trans a.1 b.1 c.1, fun a b c => strLt_negTrans a.1 b.1 c.1⟩
 
